@@ -647,3 +647,33 @@ pub fn replay(_ctx: &Ctx, sub: &str, input: &serde_json::Value) -> Result<(), Fa
         _ => Err(fail!("bad-replay", "sub {sub}: re-run the check with the same VERIF_SEED (the failing input is printed in the detail)")),
     }
 }
+
+// ------------------------------------------------------------------------------------------------
+// libFuzzer entry points (thorough tier): panics propagate as crashes, the semantic oracle is inside
+// ------------------------------------------------------------------------------------------------
+pub fn fuzz_frame(data: &[u8]) {
+    if data.len() > 65535 {
+        return;
+    }
+    let mut inst = Instances::new();
+    stateless_frame_entry_points(data).expect("stateless entry point panicked");
+    inst.feed_all(data, 1_000_000).expect("analyzer panicked");
+    if let Err(f) = probe_check(&mut inst, 5) {
+        panic!("probe equivalence violated: {} :: {}", f.what, f.detail);
+    }
+}
+pub fn fuzz_stream(data: &[u8]) {
+    if data.len() < 2 {
+        return;
+    }
+    let cuts: Vec<u16> = data[..2.min(data.len())].iter().map(|b| (*b as u16) << 8).collect();
+    let body = &data[2..];
+    let cp = crate::props::c08::cut_positions(&cuts, body.len());
+    stream_entry_points(body, &cp).expect("stream entry point panicked");
+    if let Err(f) = stream_probe(&[body.to_vec()]) {
+        panic!("stream probe violated: {} :: {}", f.what, f.detail);
+    }
+}
+pub fn fuzz_text(s: &str) {
+    text_entry_points(s).expect("text entry point panicked");
+}
